@@ -238,6 +238,10 @@ type CursorObs struct {
 	Fired        []string // sentinel names of faults that fired
 	FiredAt      []time.Time
 	Corrupted    int // reads that returned silently corrupted data before termination
+	// CorruptedLate counts corrupted reads that started after the consumer had
+	// begun to terminate the query (the mark is set before Close / cancel is
+	// issued, so such a read can still complete and be recorded by the engine)
+	CorruptedLate int
 	RowsAfterSyncTermination int // rows Next handed out after a Close / cancel issued by the consumer itself had completed
 	TermAt       time.Time
 	FiredAfterTermination []string
@@ -289,6 +293,8 @@ func runCursorCase(c CursorCase) (*CursorObs, *Trace, *bs.BloomSearchEngine, *Vi
 				fmu.Lock()
 				if atomic.LoadInt32(&terminated) == 0 {
 					o.Corrupted++
+				} else {
+					o.CorruptedLate++
 				}
 				fmu.Unlock()
 				continue
